@@ -61,9 +61,12 @@ type c11Spec struct {
 	// LateLoaders: the template is created while the set has its first loader only; the others
 	// are added before it is executed. Names computed at run time are looked up in the set's
 	// loaders as they are then.
-	LateLoaders bool   `json:"loaders_added_between_compile_and_execute,omitempty"`
-	TopName     string `json:"top_name"`
-	Root        string `json:"-"` // local kinds: temp dir
+	LateLoaders bool `json:"loaders_added_between_compile_and_execute,omitempty"`
+	// TopTrim: the caller switches TrimBlocks on for the top template only, on the template
+	// object; whatever that template pulls in - by literal or by computed name - keeps the set's options
+	TopTrim bool   `json:"trimblocks_on_top_template_only,omitempty"`
+	TopName string `json:"top_name"`
+	Root    string `json:"-"` // local kinds: temp dir
 }
 
 type c11Checker struct{}
@@ -460,6 +463,7 @@ func c11Finish(tp *Tapes, sp *c11Spec) {
 	}
 	top := c11TargetPath(sp, sp.Files[0].Path)
 	sp.TopName = top
+	sp.TopTrim = sp.Files[0].Kind == "plain" && !strings.HasPrefix(sp.Entry, "RenderTemplate") && g.Draw(4) == 0
 }
 
 // c11TargetPath: the path under which a file is addressed from the loader's root.
@@ -545,7 +549,8 @@ func c11Content(sp *c11Spec, i, d int) string {
 		return fmt.Sprintf(`{%% extends "%s" %%}{%% block k %%}<C:%s@%d>%s{{ block.Super }}</C>{%% endblock %%}`, f.PName, f.Path, d, refs.String())
 	}
 	// sv is a private variable (set) of whoever includes this file; the file then sets its own
-	return fmt.Sprintf("<F:%s@%d|pv={{ pv }}|wv={{ wv }}|w2={{ wv2 }}|sv={{ sv }}>{%% set sv = \"S%d\" %%}%s</F>", f.Path, d, i, refs.String())
+	// (the newline after the set tag stays unless the template it belongs to has TrimBlocks on)
+	return fmt.Sprintf("<F:%s@%d|pv={{ pv }}|wv={{ wv }}|w2={{ wv2 }}|sv={{ sv }}>{%% set sv = \"S%d\" %%}\n%s</F>", f.Path, d, i, refs.String())
 }
 
 func c11DiskPath(sp *c11Spec, p string) string {
@@ -721,6 +726,9 @@ func (r *c11Ref2) exec(n *c11Node, name string, env c11Env, b *strings.Builder) 
 		return true // a macro file renders nothing by itself
 	}
 	fmt.Fprintf(b, "<F:%s@%d|pv=%s|wv=%s|w2=%s|sv=%s>", f.Path, n.disk, env.pv, env.wv, env.wv2, env.sv)
+	if !(r.sp.TopTrim && n.file == 0) {
+		b.WriteString("\n") // only the top template was given TrimBlocks (by its caller, on the template object)
+	}
 	env.sv = fmt.Sprintf("S%d", n.file)
 	if !r.execRefs(n, f, name, env, b) {
 		return false
@@ -969,6 +977,9 @@ func (c11Checker) Run(tp *Tapes, opt RunOpt) *Outcome {
 				return
 			}
 			addRest() // (LateLoaders: only now)
+			if sp.TopTrim {
+				tpl.Options.TrimBlocks = true
+			}
 			s, err := tpl.Execute(c11Ctx(sp))
 			if err != nil {
 				ro.res.Err, ro.res.Failed = "execute: "+err.Error(), true
